@@ -14,6 +14,7 @@
                       true  = repaired, its value is shared equally among its pieces.
      fixdl  (FC05a) : false = as coded, the antimeridian is met at the start point's latitude;
                       true  = repaired, at the latitude of the straight map line.
+     fixe   (FC04e) : false = the interpolated crossing latitude unclamped; true = clamped between the end latitudes.
      fixz   (FC04a) : false = as coded, a zero-length crossing segment splits its value by 0/0;
                       true  = repaired, the first part keeps the value.
    Geodesic lengths are external (pyproj): they enter through the function argument [dist].  Once FC04c is
@@ -194,14 +195,21 @@ Section M.
   Definition count_nonzero (l : list Z) : nat := length (filter (fun x => negb (x =? 0)%Z) l).
 
   (* latitude at which the split segment meets the antimeridian *)
-  Definition crossing_lat (fixdl : bool) (sg : Z) (p0 p1 : point) : T :=
+  (* min(max(v, min(lo, hi)), max(lo, hi)) with Python's builtins *)
+  Definition clamp_between (lo hi v : T) : T := nmin (nmax v (nmin lo hi)) (nmax lo hi).
+
+  (* fixe (FC04e): false = the interpolated latitude as it is (in binary64 it can overshoot an end latitude — a
+     pole — by one rounding error); true = repaired, clamped between the two end latitudes *)
+  Definition crossing_lat (fixdl fixe : bool) (sg : Z) (p0 p1 : point) : T :=
     let '(lat0, lon0) := p0 in
     let '(lat1, lon1) := p1 in
     if fixdl then
       let lon_cross := if (sg =? -1)%Z then pi else - pi in
       let lon_end := if (sg =? -1)%Z then lon1 + two * pi else lon1 - two * pi in
       if lon_end =? lon0 then lat0            (* both end points on the antimeridian *)
-      else lat0 + (lon_cross - lon0) / (lon_end - lon0) * (lat1 - lat0)
+      else
+        let v := lat0 + (lon_cross - lon0) / (lon_end - lon0) * (lat1 - lat0) in
+        if fixe then clamp_between lat0 lat1 v else v
     else lat0.
 
   Definition exit_lon (sg : Z) : T := if (sg =? -1)%Z then pi else - pi.
@@ -242,7 +250,7 @@ Section M.
      geom).
 
   (* status 0: no crossing (one part); 1: one crossing (two parts); 2: more than one (empty result) *)
-  Definition geometry (clamp fixdl : bool) (glat glon galt gtime : list T) (pts : list point)
+  Definition geometry (clamp fixdl fixe : bool) (glat glon galt gtime : list T) (pts : list point)
              (alts times : option (list T)) (states : list (list T))
     : Z * nat * list part_result :=
     let cr := crossings (map snd pts) in
@@ -253,7 +261,7 @@ Section M.
         let sg := nth i cr 0%Z in
         let p0 := nth i pts (zero, zero) in
         let p1 := nth (S i) pts (zero, zero) in
-        let latx := crossing_lat fixdl sg p0 p1 in
+        let latx := crossing_lat fixdl fixe sg p0 p1 in
         let dup {A} (l : list A) (d : A) := nth i l d in
         (1%Z, i,
          [ part_run clamp glat glon galt gtime
@@ -284,9 +292,9 @@ Section M.
     end.
 
   (* the composition the theorems speak about: lengths supplied by [dist] *)
-  Definition grid_integrated (dist : point -> point -> T) (clamp fix3 fixdl fixz : bool)
+  Definition grid_integrated (dist : point -> point -> T) (clamp fix3 fixdl fixe fixz : bool)
              (glat glon : list T) (pts : list point) (vars : list (list T)) : list (list T) :=
-    let '(status, i, parts) := geometry clamp fixdl glat glon [] [] pts None None [] in
+    let '(status, i, parts) := geometry clamp fixdl fixe glat glon [] [] pts None None [] in
     values fix3 fixz status i vars
            (map (fun p : part_result => attach_dists dist (snd p)) parts).
 
@@ -306,8 +314,8 @@ Section Report.
     (lookup glat la, lookup glon lo, option_map (lookup galt) al, option_map (lookup gtime) ti, st,
      (la, lo, al, ti), geom).
 
-  Definition run_geometry (clamp fixdl : bool) (glat glon galt gtime : list T) (pts : list point)
+  Definition run_geometry (clamp fixdl fixe : bool) (glat glon galt gtime : list T) (pts : list point)
              (alts times : option (list T)) (states : list (list T)) :=
-    let '(status, i, parts) := geometry clamp fixdl glat glon galt gtime pts alts times states in
+    let '(status, i, parts) := geometry clamp fixdl fixe glat glon galt gtime pts alts times states in
     (status, i, map (part_report glat glon galt gtime) parts).
 End Report.
